@@ -1,11 +1,11 @@
 SPECIFICATION Spec
 CONSTANTS
-  G = 2
-  MaxRings = 2
+  G = 5
+  MaxRings = 3
   Drawings = 1
-  Kinds = {"rect", "tri", "dia", "rectD"}
-  MutSeq <- MutThmQ
-  Modes = {"any"}
+  Kinds = {"rect"}
+  MutSeq <- MutNone
+  Modes = {"inside"}
   MaxSegs = 26
   Styles = {}
   Theorems = TRUE
